@@ -25,72 +25,6 @@ namespace ZChain.Storage
 
 attribute [local irreducible] offer
 
-/-- the state an update's extend phase starts from, and whether the extend phase runs -/
-def preExtend (s : State) (k : Nat) (caller : Caller) (value size : Nat) (ext : Bool) (add rem : Option Nat)
-    (rw cc dp : Nat) : Except Err (State × Bool) :=
-  match s.allocs k with
-  | none => .error (.fail "absent")
-  | some a =>
-    match caller with
-    | .client j =>
-      if a.exp < s.now then .error (.fail "expired") else
-      let ext := ext || decide (size > 0)
-      if j ≠ a.owner then
-        if !ext then .error (.fail "unauthorised") else
-        match updLock s k j value with
-        | .error e => .error e
-        | .ok s1 => .ok (s1, true)
-      else
-        match updLock s k j value with
-        | .error e => .error e
-        | .ok s1 =>
-          match updBlobbers s1 k add rem rw cc dp with
-          | .error e => .error e
-          | .ok s2 => .ok (s2, ext)
-    | _ => .error (.fail "unauthorised")
-
-theorem update_eq (s : State) (k : Nat) (c : Caller) (value size : Nat) (ext : Bool) (add rem : Option Nat)
-    (rw cc dp : Nat) (ds : List Int) :
-    update s k c value size ext add rem rw cc dp ds =
-      match preExtend s k c value size ext add rem rw cc dp with
-      | .error e => .error e
-      | .ok (s2, true) => updExtend s2 k size ds
-      | .ok (s2, false) => .ok s2 := by
-  unfold update preExtend
-  cases h1 : s.allocs k with
-  | none => rfl
-  | some a =>
-    dsimp only
-    cases c with
-    | client j =>
-      dsimp only
-      by_cases he : a.exp < s.now
-      · simp only [he, if_true]
-      · simp only [he, if_false]
-        by_cases hj : j = a.owner
-        · subst hj
-          simp only [ne_eq, not_true_eq_false, if_false]
-          cases h2 : updLock s k a.owner value with
-          | error e => rfl
-          | ok s1 =>
-            dsimp only
-            cases h3 : updBlobbers s1 k add rem rw cc dp with
-            | error e => rfl
-            | ok s2 =>
-              dsimp only
-              cases (ext || decide (size > 0)) <;> rfl
-        · have hj' : j ≠ a.owner := hj
-          simp only [ne_eq, hj, not_false_eq_true, if_true]
-          cases hx : (ext || decide (size > 0)) with
-          | false => rfl
-          | true =>
-            simp only [Bool.not_true, Bool.false_eq_true, if_false]
-            cases h2 : updLock s k j value with
-            | error e => rfl
-            | ok s1 => rfl
-    | blobber i => rfl
-    | other => rfl
-
 /-- the operations outside the partial theorem -/
 def excluded13 (s : State) : Op → Prop
   | .update k c value size ext add rem rw cc dp _ =>
@@ -414,24 +348,6 @@ theorem not_invOffers_of {s : State} {i x t : Nat} (h1 : (s.sps i).map (·.offer
     simp only [Option.map_some, Option.some.injEq] at h1
     have := h.1 i sp hb
     omega
-
-/-- the result of an admissible step, for scripted witnesses -/
-def after (s : State) (op : Op) : State :=
-  match step s op with
-  | .ok s' => s'
-  | .error _ => s
-
-def stepOk (s : State) (op : Op) : Bool :=
-  match step s op with
-  | .ok _ => true
-  | .error _ => false
-
-theorem stepRel_after {s : State} {op : Op} (h : stepOk s op = true) : stepRel s op (after s op) := by
-  unfold stepRel after
-  unfold stepOk at h
-  cases hr : step s op with
-  | ok s' => rfl
-  | error e => rw [hr] at h; cases h
 
 def GBs : Nat := 1073741824
 
